@@ -45,6 +45,12 @@ class CopyPropagate:
                 # substitute all occurences of this definition of `x` with `y`
                 if len(def_use.uses[d]) > 0:
                     # optimization: only propagate if there is at least one use
+                    src = def_use.find_def_from_use(d.site.expr)
+                    if len(def_use.successors[src]) > 0:
+                        # `y` is redefined (or mutated in place) somewhere after
+                        # this definition of it, so a use of `x` may no longer
+                        # see the `y` that was copied
+                        continue
                     prop[d] = d.site.expr
 
         if not prop:
